@@ -756,6 +756,28 @@ fn strategy(t: Tier) -> BoxedStrategy<Case> {
         .boxed()
 }
 
+/// For other properties (C04, C11) that want styled workbooks as sources: a smaller
+/// version of this property's case strategy and a builder that applies everything at once.
+pub fn small_case(t: Tier) -> BoxedStrategy<Case> {
+    strategy(t)
+        .prop_map(|mut c| {
+            c.styles.truncate(12);
+            c.cells.truncate(10);
+            c.rows.truncate(8);
+            c.cols.truncate(8);
+            c.two_phase = false;
+            c
+        })
+        .boxed()
+}
+
+pub fn build_all(case: &Case) -> Spreadsheet {
+    let styles: Vec<Style> = case.styles.iter().map(apply).collect();
+    let mut book = new_book(case);
+    build(&mut book, case, &styles, 1);
+    book
+}
+
 fn subs() -> Vec<Box<dyn DynSub>> {
     vec![Box::new(Sub {
         name: "roundtrip",
